@@ -64,6 +64,8 @@ macro_rules! leaf_row {
         #[kani::proof]
         #[kani::unwind(2)]
         #[kani::stub(alloc::fmt::format, stub_format)]
+        #[kani::stub(FieldValue::try_into_cbor, stub_try_into_cbor)]
+        #[kani::stub(FieldValue::json_from, stub_json_from)]
         fn $name() {
             let t = ManuallyDrop::new($t);
             let b: bool = kani::any();
@@ -137,6 +139,8 @@ macro_rules! extract_row {
         #[kani::proof]
         #[kani::unwind(2)]
         #[kani::stub(alloc::fmt::format, stub_format)]
+        #[kani::stub(FieldValue::try_into_cbor, stub_try_into_cbor)]
+        #[kani::stub(FieldValue::json_from, stub_json_from)]
         fn $name() {
             let t = ManuallyDrop::new($t);
             let b: bool = kani::any();
